@@ -31,6 +31,7 @@ ASSUMPTIONS = ['one solver interface is used for a base model and its rewrites; 
                'tolerance 1e-6 (LP) / 1e-4 (conic)']
 
 RO_REWRITES = ['flip_obj', 'decl_order', 'row_form', 'split_eq', 'xbound_form', 'ybound_loop',
+               'st_nested',
                'rescale_rows', 'set_args', 'respell', 'row_order', 'shuffle_terms', 'dro_single',
                'vectorize', 'devectorize']
 
